@@ -183,6 +183,14 @@ fn main() {
                 }
             }
         }
+        "probe" => {
+            // probe <key> <op> <x> [y] [s] [n]
+            let f = |i: usize, d: f64| args.get(i).and_then(|x| x.parse::<f64>().ok()).unwrap_or(d);
+            match transparent::probe(&args[2], &args[3], f(4, 1.0), f(5, 1.0), f(6, 2.5), f(7, 3.0) as i32) {
+                Ok(s) => println!("{s}"),
+                Err(e) => { eprintln!("tool error: {e}"); std::process::exit(2); }
+            }
+        }
         "forms" => {
             match forms::run(args.get(2).expect("forms <file>")) {
                 Ok(v) => println!("{v}"),
